@@ -35,3 +35,13 @@ func init() {
 func init() {
 	props["C10"] = &propInfo{engine: "A", level: "model_checking", assume: schedAssume, minOutcomes: 2}
 }
+
+func init() {
+	props["C17"] = &propInfo{engine: "B", level: "exploration", minOutcomes: 2, mustOutcomes: []string{"inside:content", "outside:error", "inside:imported"},
+		assume: []string{"lexical containment as defined by the property (symbolic links are not followed by the reference normaliser)", "the file-system calls of util/import.go are observed through a mechanical rewrite of ioutil.ReadFile/os.Open/os.Stat to recording wrappers at build time"}}
+}
+
+func init() {
+	props["C18"] = &propInfo{engine: "B", level: "exploration", minOutcomes: 2, mustOutcomes: []string{"positions-ok"},
+		assume: []string{"columns are counted in bytes from 1, lines from 1; for comment tokens the reported position is that of the first content character (after # or /*)"}}
+}
